@@ -838,6 +838,33 @@ def model_phase(ctx, flags_by):
     for a in ('DoGetCached', 'DoGetCreate', 'DoGetError', 'Rewrite', 'Expire', 'Tick'):
         if taken.get(a, 0) == 0:
             raise tlc.MachineryError('vacuity: action %s has coverage 0 (%s)' % (a, taken))
+    # ... and the antecedents of the properties are reachable: each "never" below must be refuted by TLC
+    nevers = {
+        'cached request with the current ETag answered 304':
+            'IsGet\' /\\ resp\'.phase = "cached" /\\ resp\'.status = 304 /\\ resp\'.h.inm # NOHDR /\\ resp\'.h.ims < 0',
+        'cached request answered 304 on If-Modified-Since':
+            'IsGet\' /\\ resp\'.phase = "cached" /\\ resp\'.status = 304 /\\ resp\'.h.inm = NOHDR',
+        'refreshing request answered 304':
+            'IsGet\' /\\ resp\'.phase = "refresh" /\\ resp\'.status = 304',
+        'refreshing request with the ETag of the replaced tile':
+            'IsGet\' /\\ resp\'.phase = "refresh" /\\ resp\'.status = 200 /\\ resp\'.h.inm = Etag(prev\'[resp\'.t].m, prev\'[resp\'.t].s)',
+        'upstream error mapped to a fill image':
+            'IsGet\' /\\ resp\'.phase = "error"',
+        'second response from the cache without a rewrite in between':
+            'IsGet\' /\\ resp\'.phase = "cached" /\\ resp\'.prevserved # NoServed /\\ resp\'.status = 200',
+    }
+
+    def witness(i, text, cond):
+        d = ctx.sub('reach-%d' % i)
+        mp, cp = tlc.write_mc(d, 'HttpCond', 'MC_Reach', consts('file', 'single', FIXED, maxclock=5), properties=['Never'],
+                              constraint='MCBound', view='core',
+                              extra_defs='MCBound == ver <= 2\nNever == [][~(%s)]_vars' % cond)
+        rr = tlc.run(mp, cp, d, workers=1, timeout=300, coverage=False)
+        if rr.violated != 'Never':
+            raise tlc.MachineryError('vacuity: the model never shows "%s": %r\n%s' % (text, rr, rr.out[-800:]))
+        return rr
+
+    parallel([(lambda i=i, t=t, c=c: witness(i, t, c)) for i, (t, c) in enumerate(sorted(nevers.items()))])
     maxver, maxclock = (4, 7) if thorough else (3, 6)
     jobs, names = [], []
     for backend in BACKENDS:
@@ -867,9 +894,9 @@ def run(ctx):
         flags_by[backend] = detect(ctx, backend)
         ctx.log('%s cache: this tree is described by %s' % (backend, {p: flags_text(f) for p, f in flags_by[backend].items()}))
     model_phase(ctx, flags_by)
-    replay_phase(ctx, flags_by, num=30 if thorough else 8, depth=40 if thorough else 18)
+    replay_phase(ctx, flags_by, num=50 if thorough else 10, depth=50 if thorough else 20)
     ctx.log('replayed %d behaviours (%d steps)' % (ctx.cov['replayed_behaviours'], ctx.cov['replayed_steps']))
-    trace_phase(ctx, flags_by, ntraces=12 if thorough else 3, nsteps=160 if thorough else 60)
+    trace_phase(ctx, flags_by, ntraces=20 if thorough else 4, nsteps=200 if thorough else 70)
     ctx.log('validated %d recorded histories' % ctx.cov['traces_validated_against_impl'])
     ctx.assumptions += [
         'time has half-second resolution in the model; a tile is not rewritten twice within one stored time unit '
